@@ -543,6 +543,39 @@ func main() {
 		}
 	}
 
+	// 4b. every kind of call placed so that its text ends 2 before, 1 before, exactly at, and 1-3 past byte 2048
+	for i := 0; i < 1500*scale; i++ {
+		tok := g.op(arrays)
+		var n int
+		if p, _ := lib.Catch(func() { n = len(apply(newLine('.', 0), tok).ToString()) }); p || n > 1500 {
+			continue
+		}
+		for _, d := range []int{-2, -1, 0, 1, 2, 3} {
+			if idx := bufSize - n + d; idx >= 0 && idx <= bufSize {
+				g.do("line", "46", itoa(idx), tok)
+			}
+		}
+	}
+	// 4c. array guards at their comparison constants: ByteArray rem vs 3*len, IPArray room 39+2
+	if arrays {
+		for i := 0; i < 300*scale; i++ {
+			idx := 1700 + rng.Intn(349)
+			nm := g.asciiN(rng.Intn(6))
+			rem := bufSize - idx - 3 - len(nm)
+			for _, d := range []int{-4, -3, -2, -1, 0, 1, 2, 3} {
+				if k := (rem + d) / 3; k >= 0 {
+					g.do("line", "46", itoa(idx), "ba:"+lib.Hex(nm)+":"+lib.Hex(rng.Bytes(k)))
+				}
+			}
+			for _, d := range []int{-1, 0, 1} { // index after " name=[" is 2048-41+d
+				if at := bufSize - 41 + d - 3 - len(nm); at >= 0 {
+					g.do("line", "46", itoa(at), "ia:"+lib.Hex(nm)+":"+lib.Hex(g.ip6())+","+g.ipElem())
+					g.do("line", "46", itoa(at), "ia:"+lib.Hex(nm)+":11112222333344445555666677778888,"+g.ipElem())
+				}
+			}
+		}
+	}
+
 	// 5. random field sequences: short lines, lines that approach, reach and pass the limit
 	for i := 0; i < 3000*scale; i++ {
 		start := rng.Pick(0, 7, 7, 7, rng.Intn(200))
